@@ -13,3 +13,8 @@ func VerifMarshalSingular(fd protoreflect.FieldDescriptor, val protoreflect.Valu
 }
 
 func VerifFloat(n float64, bitSize int) string { return fFloat(n, bitSize) }
+
+// VerifOptionsLess is optionsByLocation.Less on a list of options.
+func VerifOptionsLess(opts []*OptionDefinition, i, j int) bool {
+	return optionsByLocation(opts).Less(i, j)
+}
